@@ -38,11 +38,21 @@ func (b *vRespBody) Close() error { return nil }
 
 func (s *vDoHServer) RoundTrip(req *http.Request) (*http.Response, error) {
 	s.calls++
-	s.queries = append(s.queries, req.URL.RawQuery)
+	// net/http serialises the URL whenever it gets to it: right away, or only after a stalled dial / handshake
+	early := verifrt.Bool("doh.serialise-early")
+	if early {
+		s.queries = append(s.queries, string([]byte(req.URL.RawQuery)))
+	}
 	if s.silent {
 		<-s.ctx.Done() // the server never answers: net/http gives up when the request's context ends
+		if !early {
+			s.queries = append(s.queries, string([]byte(req.URL.RawQuery)))
+		}
 		s.ended++
 		return nil, errVConn
+	}
+	if !early {
+		s.queries = append(s.queries, string([]byte(req.URL.RawQuery)))
 	}
 	s.ended++
 	return &http.Response{StatusCode: s.status, Body: &vRespBody{data: s.reply}}, nil
@@ -61,7 +71,14 @@ func vDoH(s *vDoHServer) *DoHTransport {
 // VerifH_C14_DoHCallerDeadline: a DoH server that never answers: the exchange returns as soon as the caller's
 // context ends (at any scheduling point), with an error; the background request is bounded by its own timeout and
 // ends too (no goroutine is left blocked), and the caller's query bytes are untouched.
-func VerifH_C14_DoHCallerDeadline() {
+func VerifH_C14_DoHCallerDeadline() { vDoHAbandoned() }
+
+// VerifH_C20_DoHAbandonedRequest: the same scenario under the ownership ghosts: the background request outlives the
+// caller; whatever it still reads (the URL query string is an unsafe view of a byte buffer) must not have been given
+// back to the pool by the caller's return path.
+func VerifH_C20_DoHAbandonedRequest() { vDoHAbandoned() }
+
+func vDoHAbandoned() {
 	verifrt.Unwind(80)
 	verifrt.SchedBound(2)
 	srv := &vDoHServer{silent: true}
